@@ -308,8 +308,8 @@ pub fn defs() -> Vec<CheckDef> {
     vec![CheckDef {
         id: "C19",
         level: "fault_enumeration",
-        runs_quick: 250_000,
-        runs_thorough: 5_000_000,
+        runs_quick: 1_000_000,
+        runs_thorough: 20_000_000,
         block: 256,
         gen: gen_c19,
         exec,
